@@ -31,6 +31,7 @@ def drive_and_validate(run, cases, shards, extra=()):
 
 def check(tier):
     run = Run("C05", tier)
+    run.skip_key = ['kind', 'implied', 'nested', 'layout']
     b = BOUNDS[tier]
     res = core.tlc("mc/MC_C05.tla", gen_cfg(run, b), workers=8 if tier == "quick" else 16, coverage=True, timeout=3000, xmx="12g")
     core.check_coverage(res)
